@@ -68,6 +68,10 @@ def run(tier):
             ck.violation("ObjIdsTrace rejected a concurrent compilation: %s" % info.get("rejected", "")[:1500], {"kind": "threads-trace", "trace": keep})
     if len(hashes) > 1:
         ck.violation("reference outputs differ between fresh processes", {"kind": "process-determinism", "hashes": [list(h) for h in hashes]})
+    # GPOS single adjustment: SinglePosBuilder groups glyphs by value record and by value format in hash maps before it sorts
+    # the subtables - every random rule set is compiled twice in one process (each hash map has its own hasher keys)
+    res = vlib.run_harness("fv-write", ["c16", "singlepos", "--seed", vlib.seed(), "--n", 600 if tier == "quick" else 6000, "--out", os.path.join(wd, "singlepos.ndjson")], timeout=1800)
+    ck.add_harness("repeat:single-adjustment", res, traces=False)
     return ck.finish()
 
 
